@@ -6,6 +6,9 @@ import Oracle.Util
      recs → kind=recs recs=<vid>{k=tv,…};… nsgrant=<vid>:<col>,…   (numeric strings whose OWN block holds a JSON number in that column)
      stats→ kind=stats rows=<k1\x1fk2>=<agg;agg>,…   (values exact rationals num/den)
      tc   → kind=tchart rows=<cell start>:<series>=<agg;agg>,… [rows2=…]   series: - (no by-field) | ~ (NULL series) | hex(key)
+   stages: stats / tc, their variants pstats / ptc (the same command behind `| eval verif_pp=1`, which makes the engine run
+   it in the stats / timechart PROCESSOR instead of the search stage: same specification), where:<f>:<op>:<lit> (`| where`).
+   Events that were sent but not flushed when the queries run are visible or not as the engine likes, consistently (`unfl=`).
    history tokens `rq/<filter>` (a query run in the middle of the history, answer discarded) and query tokens `w` (wait
    for the background persistent-query write) and `pqcheck` (state of the back-fill queue, checked on the Go side) do not
    change the specification's answer. -/
@@ -73,6 +76,7 @@ inductive Stage where
   | recs
   | pages (k : Nat)
   | tc (span : Nat) (aggs : List Agg) (by_ : Option String)
+  | where_ (f : String) (op : Op) (l : Lit)
 deriving Repr
 
 def parseAgg (s : String) : Option Agg :=
@@ -83,20 +87,29 @@ def parseAgg (s : String) : Option Agg :=
   | "max" :: f => some (.max (".".intercalate f))
   | "avg" :: f => some (.avg (".".intercalate f))
   | "dc" :: f => some (.dc (".".intercalate f))
+  | "cnt" :: f => if f.isEmpty then none else some (.cnt (".".intercalate f))
   | _ => none
 
 def showAgg : Agg → String
-  | .count => "count" | .sum f => "sum." ++ f | .min f => "min." ++ f | .max f => "max." ++ f | .avg f => "avg." ++ f | .dc f => "dc." ++ f
+  | .count => "count" | .sum f => "sum." ++ f | .min f => "min." ++ f | .max f => "max." ++ f | .avg f => "avg." ++ f | .dc f => "dc." ++ f | .cnt f => "cnt." ++ f
 
 def parseStage (s : String) : Option Stage :=
-  match s.splitOn ":" with
-  | ["stats", aggs, bys] =>
+  let statsOf (aggs bys : String) : Option Stage :=
     ((aggs.splitOn "+").mapM parseAgg).map (fun a => Stage.stats a (if bys == "-" then [] else bys.splitOn "+"))
-  | ["recs"] => some .recs
-  | ["pages", k] => k.toNat?.map Stage.pages
-  | ["tc", span, aggs, by_] =>
+  let tcOf (span aggs by_ : String) : Option Stage :=
     match span.toNat?, (aggs.splitOn "+").mapM parseAgg with
     | some sp, some a => if sp == 0 || by_.isEmpty then none else some (Stage.tc sp a (if by_ == "-" then none else some by_))
+    | _, _ => none
+  match s.splitOn ":" with
+  | ["stats", aggs, bys] => statsOf aggs bys
+  | ["pstats", aggs, bys] => statsOf aggs bys
+  | ["recs"] => some .recs
+  | ["pages", k] => k.toNat?.map Stage.pages
+  | ["tc", span, aggs, by_] => tcOf span aggs by_
+  | ["ptc", span, aggs, by_] => tcOf span aggs by_
+  | ["where", f, op, l] =>
+    match parseOp op, parseLit l with
+    | some op, some l => if f.isEmpty then none else some (Stage.where_ f op l)
     | _, _ => none
   | _ => none
 
@@ -147,6 +160,20 @@ def flushedBlocks (toks : List String) : Option (List (List Event)) :=
 /-- flushed events of a history: everything `send`-ed before the last `fl`/`ro` -/
 def flushedEvents (toks : List String) : Option (List Event) := (flushedBlocks toks).map List.flatten
 
+/-- the events that were `send`-ed after the last flush: they sit in the write buffer when the queries run.  The statement
+(C01) speaks about flushed buffers only; whether the engine shows them is left to it. -/
+def unflushedEvents (toks : List String) : List Event :=
+  let rec go (toks : List String) (batch pending : List Event) : List Event :=
+    match toks with
+    | [] => pending
+    | t :: r =>
+      if t == "send" then go r [] (pending ++ batch)
+      else if t == "fl" || t == "ro" then go r batch []
+      else match parseEv t with
+        | some e => go r (batch ++ [e]) pending
+        | none => go r batch pending
+  go toks [] []
+
 /-- (vid, column) of every STRING value whose own block holds a JSON number in the same column: only there does the
 writer's "one type per block column" rule (consolidateColumnTypes) apply, which may hand a numeric string back as a number -/
 def numStrGrants (blocks : List (List Event)) : List (Nat × String) :=
@@ -160,11 +187,46 @@ def showKey (k : List String) : String := "\x1f".intercalate k
 def hexOf (s : String) : String := bytesHex (s.toUTF8.toList.map (·.toNat))
 
 /-- the specification's answer; `blocks` = the flushed events in their blocks (only the latitude `nsgrant` of `recs` depends
-on the blocks); `pqFilters` = the filters that were run INSIDE the history (tokens `rq/…`) with persistent-query results on -/
-def answerB (blocks : List (List Event)) (q : Query) (pqFilters : List String := []) : String :=
+on the blocks); `unfl` = the events sent but not flushed when the queries run -/
+def answerB (blocks : List (List Event)) (q : Query) (unfl : List Event := []) : String :=
   let evs := blocks.flatten
   let inr := evs.filter (inRange q.start q.end_)
-  let tri := inr.map (fun e => (e, evalFilter e q.filter))
+  -- a `where` stage: the statement (C02) demands that it agrees with the same comparison in the search clause ON NUMERIC
+  -- FIELDS; a value or literal that is not a number (text order, case, booleans) and an event lacking the field are
+  -- left to the engine
+  let (whereF, stages) : Option (String × Op × Lit) × List Stage := match q.stages with
+    | .where_ f op l :: r => (some (f, op, l), r)
+    | st => (none, st)
+  -- recorded deviation (class where-quoted-number-not-canonical): the where stage compares a QUOTED number with the
+  -- canonical text of the field's number, so `where x="2.50"` / "5.0" / "+5" / "05" / "1e0" matches nothing — not even the
+  -- stored text "2.50" — while `where x="2.5"` and `where x=2.50` compare by value
+  let plainDec (p : String) : Bool :=
+    let cs := (if p.startsWith "-" then (p.drop 1).toString else p).toList
+    let ip := cs.takeWhile Char.isDigit
+    let rest := cs.dropWhile Char.isDigit
+    let ipOk := ip == ['0'] || (!ip.isEmpty && ip.head? != some '0')
+    let fpOk := match rest with
+      | [] => true
+      | '.' :: fp => !fp.isEmpty && fp.all Char.isDigit && fp.getLast? != some '0'
+      | _ => false
+    ipOk && fpOk
+  let evalW (e : Event) : Tri × Classes := match whereF with
+    | none => (.yes, [])
+    | some (f, op, l) =>
+      match e.get f, l.num? with
+      | some v, some _ =>
+        if (v.aggNum?).isSome then
+          let wc := match l with | .str p => if plainDec p then [] else ["where-quoted-number-not-canonical"] | _ => []
+          ((evalCmp (some v) op l).1, wc)
+        else (.either, [])
+      | _, _ => (.either, [])
+  let evalBoth (e : Event) : Tri × Classes :=
+    let (a, c1) := evalFilter e q.filter
+    let (b, c2) := evalW e
+    (a.and b, c1 ++ c2)
+  let tri := inr.map (fun e => (e, evalBoth e))
+  -- sent but not flushed: visible or not as the engine likes (never `must`)
+  let unflMay := (unfl.filter (inRange q.start q.end_)).filter (fun e => (evalBoth e).1 != Tri.no)
   -- `!=` / NOT on a field that some event in range lacks: whether such an event matches is left to the
   -- engine by the statement (`may`), but the engine's answer must not depend on the layout (two-layout cases;
   -- the class labels negation-over-sparse-field / number-and-text-share-column were retired with the repairs
@@ -172,17 +234,14 @@ def answerB (blocks : List (List Event)) (q : Query) (pqFilters : List String :=
   -- (repaired, patch c03-G: a query with a NEGATED free-text term that was already persistent when a segment was created
   -- got that segment's results from writer.applySearchSingleQuery, which ignored the negation; the class label
   -- pq-ingest-negated-term is no longer emitted, a recurrence is reported without a class)
-  let may0 := tri.filter (fun (_, (t, _)) => t == Tri.either)
-  -- recorded deviation (known_findings: e2e/layout-differs/pq-ingest-record-without-query-columns): the ingest-time
-  -- evaluation of a persistent query (writer.WritePackedRecord) skips a record that has none of the persistent queries'
-  -- columns, and answers "no" for a column the block does not have: an event LACKING the compared field — which `!=` / NOT
-  -- hold for at query time, and which the statement leaves to the engine — is then missing from the stored results.  Class:
-  -- the filter was run inside the history with PQS on, and some event in range is left to the engine.
-  let pqcls := if pqFilters.contains q.ftext && !may0.isEmpty then ["pq-ingest-record-without-query-columns"] else []
-  let cls := (tri.flatMap (fun (_, (_, c)) => c) ++ pqcls).eraseDups
+  -- (repaired, patch c03-I: the ingest-time evaluation of a persistent query skipped a record that has none of the
+  -- persistent queries' columns and answered "no" for a column the block does not have, so an event LACKING the compared
+  -- field was missing from the stored results of `g!=RED`; the class label pq-ingest-record-without-query-columns is no
+  -- longer emitted, a recurrence is reported by the two-layout comparison without a class)
+  let cls := (tri.flatMap (fun (_, (_, c)) => c)).eraseDups
   let must := (tri.filter (fun (_, (t, _)) => t == Tri.yes)).map (·.1)
-  let may := (tri.filter (fun (_, (t, _)) => t == Tri.either)).map (·.1)
-  match q.stages with
+  let may := (tri.filter (fun (_, (t, _)) => t == Tri.either)).map (·.1) ++ unflMay
+  match stages with
   | [] =>
     let ord := newestFirst (must ++ may)
     s!"kind=ids from={q.from_} size={q.size} order={joinNats (ord.map (·.vid))} ots={joinNats (ord.map (·.ts))} must={joinNats (must.map (·.vid))} may={joinNats (may.map (·.vid))} cls={",".intercalate cls}"
@@ -206,7 +265,7 @@ def answerB (blocks : List (List Event)) (q : Query) (pqFilters : List String :=
     -- some matched event lacks a by-field: the comparison grants the extra empty-key group (lib/e2ecmp.py).  The former
     -- deviation classes by-field-sparse / measure-field-sparse / measure-field-absent-from-dataset are repaired and gone.
     let scls := if must.any (fun e => bys.any (fun b => (e.get b).isNone)) then ["grant:empty-by-key"] else []
-    s!"kind=stats rows={",".intercalate rows} aggs={",".intercalate (aggs.map showAgg)} nmay={may.length} cls={",".intercalate (cls ++ scls)}"
+    s!"kind=stats rows={",".intercalate rows} aggs={",".intercalate (aggs.map showAgg)} nmay={may.length} nmust={must.length} cls={",".intercalate (cls ++ scls)}"
   | [.tc span aggs by_] =>
     let showCells (bucket : Nat → Nat) : String :=
       let rows := (timechart bucket must by_).map (fun ((b, k), es) =>
@@ -235,8 +294,9 @@ def e2e (args : List String) : String :=
   let qs := (r2.drop 1).filter (fun t => t != "w" && t != "pqcheck")
   match flushedBlocks hist, qs.mapM parseQuery with
   | some blocks, some qs =>
-    let pqf := if cfg.contains "pqs=0" then [] else (hist.filter (·.startsWith "rq/")).map (fun t => (t.drop 3).toString)
-    " | ".intercalate (qs.map (fun q => answerB blocks q pqf))
+    let _ := cfg
+    let unfl := unflushedEvents hist
+    " | ".intercalate (qs.map (fun q => answerB blocks q unfl))
   | _, _ => "bad-op"
 
 def handle (cmd : String) (args : List String) : Option String :=
